@@ -31,8 +31,8 @@ impl<'a> Model<'a> {
 //@spec
     ensures
         // the name displayed for `true` (in any letter case) is read as true, the one for `false` as false (the two names differ: data)
-        upper(value@) == shown(self.language, true) ==> r == Some(true),
-        upper(value@) == shown(self.language, false) && shown(self.language, false) != shown(self.language, true) ==> r == Some(false),
+        shown(self.language, false) != shown(self.language, true) && upper(value@) == shown(self.language, true) ==> r == Some(true),
+        shown(self.language, false) != shown(self.language, true) && upper(value@) == shown(self.language, false) ==> r == Some(false),
         // and nothing is read as a boolean except those two names and the English ones
         r is Some ==> upper(value@) == shown(self.language, r.unwrap()) || lower(value@) == (if r.unwrap() { "true"@ } else { "false"@ }),
 //@rewrite `-> Option<bool> {` => `-> (r: Option<bool>) {`
